@@ -985,6 +985,8 @@ class Interp:
             tv = VAL[v]
             flip = isbool and tv[0] == 'sym' and tv[1] == 'cmp' and tv[2] == 'Ne'
             ev_v = SYM('cmp', 'Eq', tv[3], tv[4]) if flip else v
+            if isbool and tv[0] == 'sym' and tv[1] == 'un' and tv[2] == 'Not' and len(tv) > 3:
+                flip, ev_v = True, tv[3]          # `!p is true` is `p is false`
 
             def bev(val):
                 return {'k': 'branch', 'val': ev_v, 'eq': (1 - val) if flip else val}
